@@ -51,6 +51,9 @@ def run(ctx):
     c17._timezone_name(ctx, ctx.model, rule='C06.D4')
     # XStr payloads: hex digits / one-line standard base64 (XStr.data_to_string, datatypes.py)
     _zinc.xstr_codec(ctx, 'C06.D2')
+    # the writers read metadata and columns through items(): keys must come with their own values (shared with C16.D5)
+    from . import c16
+    c16.mapping_overrides(ctx, ctx.model, rule='C06.D3')
 
 
 def _kind(ctx, kind, version):
@@ -136,6 +139,13 @@ def _shape(ctx):
             r = _dump.document_shaping(m)
             forms = r['json_multi']
             dd = m.func('dumper', 'dump')
+            if r.get('truthiness_filter') is not None:
+                tf = r['truthiness_filter']
+                ctx.violation(rule, 'hszinc/dumper.py::dump', norm(tf),
+                              'dump([g1, Grid(columns=["a"]), g3], MODE_JSON): the grid without rows is falsy (len 0) and is dropped '
+                              'by `%s`: the array holds 2 grid objects for 3 grids' % norm(tf.value)[:50],
+                              'the list of grids is filtered by truthiness before dumping', file='hszinc/dumper.py',
+                              line=tf.lineno, engine='E6')
             lenconds = [c for f in forms for c in r['extra'].get(('json_multi', f), []) if 'len(' in c[0]]
             if forms == {'JARR'} and not lenconds:
                 ctx.ob(rule, 'a list of grids is wrapped as a JSON array of grid documents (whatever its length)', True,
